@@ -64,6 +64,39 @@ def cases(seed, tier):
                     s["est_dep"] += 1
                 used_e.add(s["est_dep"])
         out.append({"desc": d, "pseed": rng.randrange(1 << 30)})
+    # corpus: a tight branch under a roomy main feeder, finite-rate stations with a non-zero minimum pilot, uninterrupted
+    # charging: some session cannot get its minimum while later ones can; distinct arrivals, departures and estimates (no ties)
+    for i in range(40 if tier == "quick" else 1200):
+        ns = rng.randint(4, 6)
+        rates = rng.choice([[0, 8, 16, 24, 32], [0] + list(range(6, 33)), [0, 10, 20, 30]])
+        stations = [{"id": f"s{k}", "evse": {"t": "FR", "rates": list(rates)}, "voltage": 208, "phase": 0} for k in range(ns)]
+        rng.shuffle(stations)
+        ids = [s_["id"] for s_ in stations]
+        nb = rng.randint(2, 3)
+        mn = min(r_ for r_ in rates if r_ > 0)
+        cons = [{"name": "branch", "coeffs": {k_: 1 for k_ in ids[:nb]}, "limit": rng.choice([mn + 2.37, 2 * mn - 1.63, 2 * mn + 1.37])},
+                {"name": "main", "coeffs": {k_: 1 for k_ in ids}, "limit": rng.choice([40.37, 64.37, 90.37])}]
+        if rng.random() < 0.5:
+            cons.reverse()
+        order = list(range(ns))
+        rng.shuffle(order)
+        sessions = []
+        for q_, k in enumerate(order):
+            a = q_ if rng.random() < 0.8 else 0
+            dep = 14 + 2 * rng.sample(range(ns), ns)[q_] + q_ % 2
+            sessions.append({"id": f"x{k}", "station": ids[k], "arrival": a, "departure": dep + 20 * 0, "requested": rng.choice([6, 14, 30]),
+                             "est_dep": dep, "battery": {"t": "ideal", "cap": 100, "init": 0, "maxp": 20}})
+        deps = set()
+        for s_ in sessions:
+            while s_["departure"] in deps:
+                s_["departure"] += 1
+            deps.add(s_["departure"])
+            s_["est_dep"] = s_["departure"]
+        d = {"period": 5, "start": [2020, 2, 3, 9, 0], "network": {"stations": stations, "constraints": cons, "tol": None}, "sessions": sessions,
+             "recompute": [], "np_seed": 3,
+             "scheduler": {"kind": "sorted", "algo": ("greedy", "rr")[i % 2], "sort": gen.SORTS[i % 5], "est": None, "unint": True, "inc": 1,
+                           "seed": rng.randrange(1 << 20)}}
+        out.append({"desc": d, "pseed": rng.randrange(1 << 30)})
     return out
 
 
